@@ -246,6 +246,12 @@ def build_gt(cfg):
         # a recording that started long ago: sample numbers beyond the 32-bit range
         g.samples = g.samples + int(cfg['time_offset'])
     g.alf_times = None
+    g.alf_seconds = None
+    if cfg.get('alf_clock') and cfg['names']['times'] == 'alf' and cfg['present'].get('samples_file'):
+        # seconds in a synchronised session clock (offset and drift): NOT samples / rate; the
+        # samples file next to them holds the sample numbers
+        off, drift = cfg['alf_clock']
+        g.alf_seconds = g.samples / g.sr * (1.0 + drift) + off
     if cfg.get('alf_times_f32') is not None and cfg['names']['times'] == 'alf' \
             and not cfg['present'].get('samples_file') and not cfg['present']['raw']:
         # seconds stored in single precision, possibly late in a long recording: the samples
@@ -381,6 +387,11 @@ def build_gt(cfg):
         g.tf_ind = np.zeros((nt, nl), dtype=np.int64)
         for t in range(nt):
             g.tf_ind[t] = rs.permutation(nt)[:nl]
+        if cfg.get('tf_no_ind'):
+            # no column table: column j of the store is template j (fewer or more columns than
+            # templates: missing ones are zero, surplus ones are dropped)
+            nl = cfg['tf_no_ind']
+            g.tf_ind = np.tile(np.where(np.arange(nl) < nt, np.arange(nl), -1), (nt, 1))
         if p['tfeature_rows']:
             k = rs.randint(2, ns + 1)
             g.tf_rows = np.sort(rs.permutation(ns)[:k]).astype(np.int64)
@@ -528,6 +539,8 @@ def _name(cfg, fam):
 
 
 def _vec(cfg, fam, arr):
+    if fam in (cfg.get('rowvec') or []):
+        return arr.reshape((1, -1))      # a MATLAB row vector: shape (1, n)
     return arr.reshape((-1, 1)) if fam in cfg['colvec'] else arr
 
 
@@ -542,8 +555,9 @@ def write_dataset(cfg, g, d):
     if cfg['names']['times'] == 'ks':
         save('spike_times.npy', _vec(cfg, 'times', g.samples.astype(dts['times'])))
     else:
-        save(_name(cfg, 'times'), _vec(cfg, 'times', g.samples / g.sr if g.alf_times is None
-                                       else g.alf_times))
+        save(_name(cfg, 'times'), _vec(cfg, 'times', g.alf_seconds if g.alf_seconds is not None
+                                       else (g.samples / g.sr if g.alf_times is None
+                                             else g.alf_times)))
         if p.get('samples_file'):
             lab = ('.' + cfg['alf_label']) if cfg.get('alf_label') else ''
             save('spikes.samples%s.npy' % lab, g.samples.astype(dts['times']))
@@ -557,7 +571,7 @@ def write_dataset(cfg, g, d):
     save(_name(cfg, 'chmap'), _vec(cfg, 'chmap', g.chmap.astype(dts['chmap'])))
     save(_name(cfg, 'chpos'), g.pos.astype(getattr(g, 'pos_dtype', 'float64')))
     if p['probes']:
-        save(_name(cfg, 'chprobe'), g.probes.astype('int32'))
+        save(_name(cfg, 'chprobe'), g.probes.astype(cfg['dtypes'].get('chprobe', 'int32')))
     if p['shanks']:
         save(_name(cfg, 'chshank'), g.shanks.astype('int32'))
     save(_name(cfg, 'tmpl'), np.asfortranarray(g.tmpl_data) if cfg.get('tmpl_fortran')
@@ -577,7 +591,8 @@ def write_dataset(cfg, g, d):
             save('pc_feature_spike_ids.npy', g.feat_rows.astype('int64'))
     if p['tfeatures']:
         save('template_features.npy', g.tfeatures)
-        save('template_feature_ind.npy', g.tf_ind.astype(dts['find']))
+        if not cfg.get('tf_no_ind'):
+            save('template_feature_ind.npy', g.tf_ind.astype(dts['find']))
         if g.tf_rows is not None:
             save('template_feature_spike_ids.npy', g.tf_rows.astype('int64'))
     if cfg.get('ks2_templates_ind') and not cfg['sparse']:
